@@ -71,12 +71,15 @@ def dart_symbols(outdir):
 
 
 def kotlin_symbols(outdir):
-    decl = set()
+    decl, calls = set(), set()
     for f in _files(outdir, lambda n: n.endswith(".kt") and n != "Lib.kt"):
         t = open(f).read()
         for blk in re.findall(r"internal interface \w+Lib\s*:\s*Library\s*\{(.*?)\n\}", t, re.S):
             decl.update(re.findall(r"\bfun\s+([A-Za-z_]\w*)\(", blk))
-    return {"declared": _strip(decl), "referenced": _strip(decl)}
+        # call sites: `lib.<symbol>(` (the runtime's own library object is `DW.lib`)
+        body = re.sub(r"internal interface \w+Lib\s*:\s*Library\s*\{.*?\n\}", "", t, flags=re.S)
+        calls.update(m.group(1) for m in re.finditer(r"(?<![\w.])lib\.([A-Za-z_]\w*)\(", body))
+    return {"declared": _strip(decl), "referenced": _strip(calls)}
 
 
 def symbols(backend, outdir):
